@@ -137,7 +137,8 @@ mod verif_kani_ffi_par {
                 assert!(32 * w + (b as usize) < vocab);
             }
         }
-        assert!(cc.errors == if failed { 1 } else { 0 });
+        let want_errors = if failed { 1 } else { 0 };
+        assert!(cc.errors == want_errors);
     }
 
     macro_rules! par_copy {
